@@ -1639,3 +1639,45 @@ def rule_workerloopmisc(text):
             apps.append(_app(rname, text, mm.start(), mm.end(), new, why))
             text = text[:mm.start()] + new + text[mm.end():]
     return text, apps
+
+
+def rule_sig_sampler(text):
+    apps = []
+    table = [
+        (r"<R:\s*Rng\s*\+\s*\?Sized>", "", "the generic random generator becomes the opaque handle"),
+        (r"&\s*scc::HashMap<Vec<u8>,\s*Arc<crate::core::record::Record>,\s*ahash::RandomState>", "&HashIndex", "opaque handle for the hash index"),
+        (r"&mut\s+R\b", "&mut RngH", "opaque handle for the random generator"),
+        (r"Arc<crate::core::record::Record>", "Arc<Record>", "path of the record type"),
+    ]
+    for pat, rep, why in table:
+        while True:
+            mm = re.search(pat, text)
+            if not mm:
+                break
+            apps.append(_app("R-handle", text, mm.start(), mm.end(), rep, why))
+            text = text[:mm.start()] + rep + text[mm.end():]
+    return text, apps
+
+
+def rule_samplermisc(text):
+    apps = []
+    ws = r"\s*"
+    table = [
+        (r"(\w+)\.random_range\(" + ws + r"0\.\.([\w()*]+)" + ws + r"\)", r"\1.random_below(\2)", "R-rng", "shim: a uniform index below n"),
+        (r"(\w+)\.min\((hash_table\.len\(\))\)", r"min_usize(\1, \2)", "R-arith", "definition of Ord::min on usize (verified shim)"),
+        (r"\bkey\.clone\(\)", "vec_clone_u8(key)", "R-clone", "shim: cloning a Vec<u8> copies its bytes"),
+        (r"candidates\[index\]" + ws + r"=" + ws + r"([^;]*);", r"candidates.set(index, \1);", "R-idxset", "definition of assignment to a Vec element"),
+    ]
+    for pat, rep, rname, why in table:
+        n = 0
+        while n < 12:
+            n += 1
+            mm = re.search(pat, text)
+            if not mm:
+                break
+            new = mm.expand(rep)
+            if new == text[mm.start():mm.end()]:
+                break
+            apps.append(_app(rname, text, mm.start(), mm.end(), new, why))
+            text = text[:mm.start()] + new + text[mm.end():]
+    return text, apps
